@@ -29,34 +29,46 @@ BytesOK(jd) ==
           ~(NumOf(SubSeq(jd[i].lo, 1, m)) <= NumOf(jd[j].hi) /\ NumOf(jd[j].lo) <= NumOf(SubSeq(jd[i].hi, 1, m)))
 
 Judge(rec) ==
-    LET defs  == [i \in 1..Len(rec.defs) |-> DefOf(rec.defs[i])]
+    LET defs  == SubSeq([i \in 1..Len(rec.defs) |-> DefOf(rec.defs[i])], 1, Len(rec.defs))
         n     == Len(rec.codes)
-        cs    == [i \in 1..n |-> <<Len(rec.codes[i]), CodeOf(rec.codes[i])>>]
-        inDom == /\ Len(defs) >= 1 /\ BytesOK(rec.defs) /\ WellFormed(defs)
-                 /\ \A i \in 1..n : Covered(defs, cs[i][1], cs[i][2])
+        idx   == [i \in 1..n |-> i]
+        cs    == SubSeq([i \in 1..n |-> <<Len(rec.codes[i]), CodeOf(rec.codes[i])>>], 1, n)
+        \* per code, computed once (SubSeq forces the tuple): winner, defined units, text, input class
+        info  == SubSeq([i \in 1..n |->
+                    LET S == CoveringIdx(defs, cs[i][1], cs[i][2]) IN
+                    IF S = {} THEN [cov |-> FALSE, units |-> <<>>, exp |-> <<>>, cls |-> "", bom |-> FALSE]
+                    ELSE LET w == MaxOf(S)
+                             u == TargetAt(defs[w], cs[i][2])
+                         IN [cov |-> TRUE, units |-> u, exp |-> Text(u),
+                             cls |-> CaseClassAt(defs, w, cs[i][1], cs[i][2]), bom |-> BomStart(u)]], 1, n)
+        inDom == /\ Len(defs) >= 1 /\ n >= 1 /\ BytesOK(rec.defs) /\ WellFormed(defs)
+                 /\ \A i \in 1..n : info[i].cov
     IN
     IF ~inDom THEN [v |-> "outside-domain", bad |-> <<>>, cls |-> <<>>, w |-> "skip"]
     ELSE IF rec.err # "" THEN [v |-> "no-encoding", bad |-> <<>>, cls |-> <<>>, w |-> "skip"]
     ELSE IF Len(rec.per) # n THEN [v |-> "short-result", bad |-> <<>>, cls |-> <<>>, w |-> "skip"]
     ELSE
-    LET exp(i) == Text(Lookup(defs, cs[i][1], cs[i][2]))
-        cls(i) == CaseClass(defs, cs[i][1], cs[i][2])
-        okAt(i) == rec.per[i].p = 0 /\ rec.per[i].chars = exp(i)
-        idx   == [i \in 1..n |-> i]
+    LET okAt(i) == rec.per[i].p = 0 /\ rec.per[i].chars = info[i].exp
         badIdx == SelectSeq(idx, LAMBDA i : ~okAt(i))
-        bad   == [b \in 1..Len(badIdx) |-> [c |-> badIdx[b], cls |-> cls(badIdx[b]), exp |-> exp(badIdx[b])]]
-        wholeOK == rec.whole.p = 0 /\ rec.whole.chars = Decode(defs, cs)
-        \* A wrong whole string is explained by wrong codes when it is exactly the concatenation of
-        \* the per-code results (a BOM-class code that is not the first one keeps its expected text:
-        \* the sniffing only looks at the start of a string).
+        bad   == [b \in 1..Len(badIdx) |-> [c |-> badIdx[b], cls |-> info[badIdx[b]].cls, exp |-> info[badIdx[b]].exp]]
+        allUnits == FoldLeft(LAMBDA acc, i : acc \o info[i].units, <<>>, idx)
+        wc    == rec.whole.chars
+        wholeOK == rec.whole.p = 0 /\ wc = Text(allUnits)
+        \* A wrong whole string is explained by wrong codes when it is the concatenation of the per-code
+        \* results, where a BOM-class code that is not the first one may also show its expected text
+        \* (the sniffing only looks at the start of a string).  pos = set of matched prefix lengths.
         anyP  == \E i \in 1..n : rec.per[i].p # 0
-        cat   == FoldLeft(LAMBDA acc, i : acc \o (IF i > 1 /\ cls(i) = "text.bom" THEN exp(i) ELSE rec.per[i].chars), <<>>, idx)
-        explained == Len(badIdx) > 0 /\ (IF anyP THEN rec.whole.p # 0 ELSE rec.whole.p = 0 /\ rec.whole.chars = cat)
+        opts(i) == {rec.per[i].chars} \cup (IF i > 1 /\ info[i].bom THEN {info[i].exp} ELSE {})
+        pos   == FoldLeft(LAMBDA S, i : {p + Len(x) : <<p, x>> \in
+                                           {px \in S \X opts(i) : /\ px[1] + Len(px[2]) <= Len(wc)
+                                                                    /\ SubSeq(wc, px[1] + 1, px[1] + Len(px[2])) = px[2]}},
+                          {0}, idx)
+        explained == Len(badIdx) > 0 /\ (IF anyP THEN rec.whole.p # 0 ELSE rec.whole.p = 0 /\ Len(wc) \in pos)
     IN [v |-> IF Len(badIdx) = 0 /\ wholeOK THEN "ok" ELSE IF Len(badIdx) > 0 THEN "codes" ELSE "whole",
         bad |-> bad,
-        cls |-> [i \in 1..n |-> cls(i)],
+        cls |-> [i \in 1..n |-> info[i].cls],
         w |-> IF wholeOK THEN "ok" ELSE IF explained THEN "explained"
-              ELSE IF BomStart(Units(defs, cs)) THEN "bom" ELSE "bad"]
+              ELSE IF BomStart(allUnits) THEN "bom" ELSE "bad"]
 
 Init == l = 1
 Next == /\ l <= Len(Recs)
